@@ -566,7 +566,7 @@ mod c38 {
                 }
             } else {
                 // the call must be held at the pause point before this action
-                if !run.wait(&s.p, 10_000) {
+                if !run.wait(&s.p, 60_000) {
                     run.out.hang = true;
                     run.out.error = format!("step {i} ({}.{}): call neither paused nor finished: {}", s.p, s.a, run.describe());
                     break;
@@ -605,7 +605,7 @@ mod c38 {
             if all {
                 break;
             }
-            if t0.elapsed() > Duration::from_secs(20) {
+            if t0.elapsed() > Duration::from_secs(60) {
                 run.out.hang = true;
                 if run.out.error.is_empty() {
                     run.out.error = format!("calls did not return after all pause points were released: {}", run.describe());
